@@ -711,9 +711,9 @@ func caseC17Settings(t TB, prog *Program) {
 				nc := e.cfg
 				before := treeHash(e.root)
 				want := sod.ErrExtensionMismatch
-				if op.Ref%3 == 0 {
+				if op.Ref%4 == 0 {
 					nc.Ext = e.cfg.Ext + "x"
-				} else if op.Ref%3 == 1 {
+				} else if op.Ref%4 == 1 {
 					// extensions are file-name suffixes: they differ when their case differs
 					nc.Ext = strings.ToUpper(e.cfg.Ext)
 					if nc.Ext == e.cfg.Ext {
@@ -732,7 +732,7 @@ func caseC17Settings(t TB, prog *Program) {
 				}
 				bad := nc.Schema()
 				var restore func()
-				if want == sod.ErrFieldDescModif && liveFields != nil && op.Ref%2 == 0 {
+				if want == sod.ErrFieldDescModif && liveFields != nil && op.Ref%4 == 2 {
 					// the application edits the descriptor map it used before, in place
 					c := nc.Cons["S2"]
 					old := e.cfg.Cons["S2"]
@@ -773,6 +773,10 @@ func caseC17Settings(t TB, prog *Program) {
 	}
 	e := NewEnv(t, prog, opts)
 	defer e.Teardown()
+	// the application's own schema definition, handed to Create once more (compatible: a no-op)
+	if err := e.db.Create(&Doc{}, schemaOf(e.cfg)); err != nil {
+		e.failf("Create with an identical schema: %v", err)
+	}
 	vshim.WaitParked(guardReal)
 	e.Run()
 	if err := e.db.Close(); err != nil {
@@ -836,7 +840,7 @@ func TestC17(t *testing.T) {
 					op.Cfg = &c
 				}
 				if op.Op == "switchBad" {
-					op.Ref = g.uni(2, "badkind")
+					op.Ref = g.uni(8, "badkind")
 				}
 			}
 			prog.Aux = map[string]interface{}{"kind": "settings"}
